@@ -138,7 +138,12 @@ theorem invx_setpc {x} {s : State} (hi : InvX x s) (c : Nat) (p : Pc)
   · intro L c' b; simp only [upd_apply] at *; grind
   · intro c'; simp only [upd_apply] at *; grind
   · intro c'; simp only [upd_apply] at *; grind
-  · intro c'; simp only [lockpc, owning, upd_apply] at *; grind
+  · intro c' hc'
+    by_cases hcc : c' = c
+    · subst hcc
+      simp only [upd_same] at hc'
+      rcases hp with rfl | rfl <;> simp [lockpc, owning] at hc'
+    · simp only [upd_apply, hcc, if_false] at hc' ⊢; exact h11 c' hc'
   · intro c'; simp only [upd_apply] at *; grind
 
 theorem invx_counters {x} {s : State} (hi : InvX x s) (h m : Nat) :
